@@ -6,6 +6,7 @@ path by deterministic re-execution with a decision prefix.
 """
 from __future__ import annotations
 
+import math
 import time
 
 import numpy as np
@@ -162,6 +163,7 @@ def explore(fn, assumptions=(), tally=None, max_paths=100000, timeout_ms=60000):
         S.ENV.side = ctx.side
         S.ENV.defined = ctx.defined
         S.ENV.serial = _next_serial()
+        S.ENV.tainted = False
         try:
             out = fn(ctx)
         except Infeasible:
@@ -173,10 +175,12 @@ def explore(fn, assumptions=(), tally=None, max_paths=100000, timeout_ms=60000):
                 pass
             raise
         finally:
+            tainted = S.ENV.tainted
             Ctx.cur = None
             S.ENV.side = None
             S.ENV.defined = None
         ctx._sync()
+        ctx.tainted = tainted
         results.append((ctx, out))
         if tally is not None:
             tally.paths += 1
@@ -221,6 +225,10 @@ _INTS = (torch.int8, torch.int16, torch.int32, torch.int64, torch.uint8)
 
 def norm_scalar(v, dtype):
     """bring a scalar into the value set of dtype"""
+    if type(v) is float and v != v:
+        u = S.unbox(v)
+        if u is not None:
+            v = u
     if type(v).__name__ == "G":
         if v.leaves.dtype != dtype:
             with _disable_current_modes():
@@ -493,7 +501,14 @@ class SymScalar:
     __index__ = __int__
 
     def __float__(self):
-        return float(self._concretise())
+        v = self.v
+        if S.is_bitlike(v) or isinstance(v, S.Cases) or (isinstance(v, S.Poly) and v.is_int):
+            return float(self._concretise())
+        if isinstance(v, S.Poly) and all(S._ATOM_BY_ID[a].kind == "bit" or S._ATOM_BY_ID[a].is_int for a in v.atoms()):
+            return float(self._concretise())      # rational combination of bits / integers (e.g. errors / total): finitely many values
+        # float(x) of a symbolic real (e.g. float(power.item())): there is no finite set of values to fork over, and
+        # Python insists on an exact float: hand out a NaN box (sym.nanbox); the path is marked tainted.
+        return S.nanbox(v)
 
     def __round__(self, n=None):
         return wrap_scalar(S.round_(self.v))
